@@ -27,7 +27,7 @@ MESHES = ['line3', 'rect22', 'per32', 'tri2', 'mix2', 'mp2', 'box112', 'per22']
 
 # ambient dimension, element size, bounding box, period vectors, names of the sides of the box (None: no such names)
 META = {
-    'line3':  dict(d=1, h=1., lo=[0.], hi=[3.], periods=[], sides=True),
+    'line3':  dict(d=1, h=1., lo=[0.], hi=[3.], periods=[], sides=False),   # mesh.line defines no boundary names
     'rect22': dict(d=2, h=1., lo=[0., 0.], hi=[2., 2.], periods=[], sides=True),
     'per32':  dict(d=2, h=1., lo=[0., 0.], hi=[3., 2.], periods=[[3., 0.]], sides=True),
     'per22':  dict(d=2, h=1., lo=[0., 0.], hi=[2., 2.], periods=[[2., 0.]], sides=True),
